@@ -1,12 +1,23 @@
-"""C10 — simulation-based check (real executor code on the simulated kernel) + monitors."""
+"""C10 — Coq theorems over coq/Model/Resize.v (the program of _resize regenerated from the source) + simulation of the real
+executor code with kills and time-outs at every step of the resize."""
 from checks import simcommon as S
 
-FAMILIES = ['resize']
+FAMILIES = ['resize', 'reuse']
 PER_FAMILY = (700, 12000)
+
+PROOF = S.pool_proof('C10', ['C10_never_posts_while_work_is_pending', 'C10_resize_returns_as_asked', 'C10_blocked_resize_can_always_progress',
+                             'C10_invariant_of_every_history', 'C10_structure'],
+                     'a counter model: which worker takes which sentinel, the identity of the kept processes and wall-clock time are not '
+                     'modelled; "terminates" is deadlock-freedom with a strictly decreasing measure, not a bound in seconds; locks held by '
+                     'dead processes (H5) and the race with terminate_broken (H8) are outside the model')
+PROOF["gen"] = ["Resize"]
+PROOF["model_name"] = "coq/Model/Resize.v"
+PROOF["trusted_extra"] = ["the statement table of tr/units_resize.py (anything unrecognised is refused)",
+                          "what each instruction / environment event means for the counters (coq/Model/Resize.v), hand-written"]
 
 
 def run(ctx):
-    return S.sim_check(ctx, FAMILIES, FAMILIES, PER_FAMILY, S.SIM_ASSUME)
+    return S.sim_check(ctx, FAMILIES, FAMILIES, PER_FAMILY, S.SIM_ASSUME, proof=PROOF)
 
 
 def replay(ctx, path):
